@@ -1628,4 +1628,60 @@ example : bodyOnWire exOps (adaptReqLine (fun _ p _ => p) id { method := "GET" }
   decide
 
 
+/-! ### Overlapping compressed responses: no gzip writer is ever shared -/
+
+/-- Invariant of the code's reader lifecycle: every writer handed out so far is below `nextWriter`, and no two
+readers have the same one. -/
+theorem gz_inv (ops : List GzOp) (s : GzState) (hlt : ∀ w ∈ s.writers, w < s.nextWriter) (hnd : s.writers.Nodup) :
+    (∀ w ∈ (ops.foldl (gzStep false) s).writers, w < (ops.foldl (gzStep false) s).nextWriter) ∧
+    (ops.foldl (gzStep false) s).writers.Nodup := by
+  induction ops generalizing s with
+  | nil => exact ⟨hlt, hnd⟩
+  | cons o t ih =>
+    simp only [List.foldl_cons]
+    cases o with
+    | close rid => exact ih s hlt hnd
+    | new =>
+      apply ih
+      · intro w hw
+        simp only [gzStep, Bool.false_eq_true, if_false, List.mem_append, List.mem_singleton] at hw ⊢
+        rcases hw with hw | hw
+        · have := hlt w hw; omega
+        · omega
+      · simp only [gzStep, Bool.false_eq_true, if_false]
+        rw [List.nodup_append]
+        refine ⟨hnd, by simp, ?_⟩
+        intro a ha b hb
+        simp only [List.mem_singleton] at hb
+        have := hlt a ha
+        omega
+
+/-- **No gzip writer is shared between two compress readers** — for every history of reader creations and `Close`
+calls: any number of readers alive at the same time, every reader closed any number of times (the proxy closes each
+compressed body at least twice), in any interleaving. So what one response's compressor writes can never end up in
+another response. -/
+theorem gzip_writers_never_shared (ops : List GzOp) (i j : Nat) (w : Nat)
+    (hi : (gzRun false ops).writers[i]? = some w) (hj : (gzRun false ops).writers[j]? = some w) : i = j := by
+  have h := (gz_inv ops {} (by intro w hw; simp at hw) (by simp)).2
+  unfold gzRun at hi hj
+  generalize (ops.foldl (gzStep false) {}).writers = l at h hi hj
+  have hi' := List.getElem?_eq_some_iff.mp hi
+  have hj' := List.getElem?_eq_some_iff.mp hj
+  obtain ⟨hil, hiv⟩ := hi'
+  obtain ⟨hjl, hjv⟩ := hj'
+  exact (List.getElem_inj h).mp (hiv.trans hjv.symm)
+
+/-- Facts that make `pooled = false` the right instance: `NewGZipCompressReader` allocates its own buffer and its own
+`gzip.NewWriter(buff)`, the file has no package-level state besides `bodyFlushSize`, and `Close` mentions neither the
+writer nor the buffer (so calling it twice is harmless). -/
+theorem gzip_reader_facts :
+    Gen.FactsC03.gzipWriterOwned = true ∧ Gen.FactsC03.gzipNoPackageState = true ∧
+    Gen.FactsC03.gzipCloseStateless = true := ⟨rfl, rfl, rfl⟩
+
+/-- The seeded defect C03-m5 in the model: one completed response closed twice puts its writer into the pool
+twice, and the next two overlapping responses (readers 1 and 2) get the same writer. -/
+example : (gzRun true [.new, .close 0, .close 0, .new, .new]).writers = [0, 0, 0] ∧
+    (gzRun false [.new, .close 0, .close 0, .new, .new]).writers = [0, 1, 2] := by decide
+
+
 end EgVerif.C03
